@@ -255,7 +255,7 @@ def run_all(tier, seed, focus):
         "C09": "same scope; counters vs a reference tag-only cache fed the logged access sequence of the uncached run; both modes equal; accesses == executed loads/stores; single-cycle cycles == instructions + misses x penalty; and after load_program of generated programs with data segments of every declaration kind the counters, the cycle counter and the cache are untouched",
         "C11": "same programs with random instruction-cache configurations; results unchanged; single-cycle fetch accounting vs the reference cache fed the executed addresses",
         "C12": "same scope; after EVERY step: write-through backing == logical contents; write-back backing differs only at resident addresses (views read off the blocks, no reads through the cache)",
-        "C17": "same scope; the data-memory table equals the written words of the backing store in ascending order with the four representations of their current values",
+        "C17": "same scope; the data-memory table equals the written words of the backing store in ascending order with the four representations of their current values; plus assembled programs that also load from never-written addresses, in both modes, uncached: the table lists exactly the declared and stored words (known from the program text)",
     }[focus]
     if focus == "C09":
         # parser preloads leave the counters untouched: after load_program of a program with a data segment of every
@@ -281,6 +281,26 @@ def run_all(tier, seed, focus):
                 if len(viol) < 5:
                     viol.append({"key": "C09:preload:" + str(cfg), "what": "after load_program (no instruction executed): hits=%d accesses=%d last_was_hit=%s cycles=%d resident blocks=%d; the assembler's preload must leave all of them at 0 / False" % (
                         ms.hits, ms.accesses, ms.last_was_hit, sim.state.performance_metrics.cycles, resident), "text": text, "config": list(cfg), "mode": mode, "sub": "preload"})
+    if focus == "C17":
+        # assembled programs (so the memory has been through load_program's reset) that also LOAD from addresses nothing
+        # was ever written to: the table lists exactly the words that hold a written byte -- the data segment and the
+        # targets of the executed stores, known here from the program itself, not from the simulator's store
+        from architecture_simulator.simulation.riscv_simulation import RiscvSimulation
+        for it in range(40 if tier == "quick" else 600):
+            text, want_words = _table_program(rnd)
+            for mode in ("single_stage_pipeline", "five_stage_pipeline"):
+                # (uncached only: behind a cache the backing store is also written by block write-backs, whole blocks at a
+                #  time, so "the words that hold a written byte" is no longer a function of the program text alone; the
+                #  cached runs above compare the table with the backing store itself)
+                for cfg in (None,):
+                    kw = {"mode": mode}
+                    if cfg is not None:
+                        kw["data_cache"] = CacheOptions(True, cfg[0], cfg[1], cfg[2], cfg[3], cfg[4], cfg[5])
+                    evals += 1
+                    what = _table_check(RiscvSimulation(**kw), text, want_words)
+                    seen.add(("table-after-loads", mode, cfg is not None))
+                    if what and len(viol) < 5:
+                        viol.append({"key": "C17:table-rows:" + what[:60], "what": what, "text": text, "want_words": want_words, "mode": mode, "config": list(cfg) if cfg else None, "sub": "table"})
     ops_info = None
     if focus in ("C03", "C09", "C12"):
         from bounded import cacheops
@@ -294,7 +314,48 @@ def run_all(tier, seed, focus):
             "bound": "programs <= 14 instructions, <= 150 single-cycle steps; interface histories of 40 operations", "contract": "program-level clause of " + focus}
 
 
+def _table_program(rnd):
+    """-> (program text, {word address: value} of every word the table must list)"""
+    base = 2 ** 14
+    vals = [rnd.randint(1, 2 ** 32 - 1) for _ in range(rnd.randint(1, 3))]
+    far = base + 0x1000 + 4 * rnd.randint(0, 60)        # a region nothing is declared in
+    st_off, ld_offs = 4 * rnd.randint(0, 15), [4 * rnd.randint(16, 40) for _ in range(rnd.randint(1, 3))]
+    lines = [".data", "v: .word " + ", ".join(str(v) for v in vals), ".text", "lw x5, v", "li x6, %d" % far]
+    for k, o in enumerate(ld_offs):
+        lines.append("%s x%d, %d(x6)" % (rnd.choice(["lw", "lb", "lhu"]), 7 + k, o))      # loads from never-written words
+    lines.append("sw x5, %d(x6)" % st_off)
+    lines.append("lw x12, %d(x6)" % st_off)
+    want = {base + 4 * i: v for i, v in enumerate(vals)}
+    want[far + st_off] = vals[0]
+    return "\n".join(lines), want
+
+
+def _table_check(sim, text, want_words):
+    try:
+        sim.load_program(text)
+        sim.run()
+        tbl = sim.get_data_memory_entries()
+    except Exception as e:
+        return "raises %s: %s" % (type(e).__name__, str(e)[:80])
+    got = [(int(x[0][0]), tuple(x[1])) for x in tbl]
+    want = [(w, tuple(get_32_bit_representations(want_words[w]))) for w in sorted(want_words)]
+    if [g[0] for g in got] != [w[0] for w in want]:
+        return "data-memory table lists the words %s, written were %s" % ([hex(g[0]) for g in got][:8], [hex(w[0]) for w in want][:8])
+    if got != want:
+        return "data-memory table shows other values than the written ones"
+    return None
+
+
 def replay(j):
+    if j.get("sub") == "table":
+        from architecture_simulator.simulation.riscv_simulation import RiscvSimulation
+        kw = {"mode": j["mode"]}
+        if j.get("config"):
+            c = j["config"]
+            kw["data_cache"] = CacheOptions(True, c[0], c[1], c[2], c[3], c[4], c[5])
+        what = _table_check(RiscvSimulation(**kw), j["text"], {int(k): v for k, v in j["want_words"].items()})
+        print(j["text"], "->", what or "table lists exactly the written words", "| recorded:", j.get("what"))
+        return what is None
     if j.get("sub") == "preload":
         from architecture_simulator.simulation.riscv_simulation import RiscvSimulation
         c = j["config"]
